@@ -332,7 +332,13 @@ impl<R: Read> Read for ChunkedReader<'_, R> {
                     let mut line = String::new();
                     loop {
                         let n = self.inner.read_line(&mut line)?;
-                        if n == 0 || line == "\r\n" || line == "\n" {
+                        if n == 0 {
+                            return Err(io::Error::new(
+                                ErrorKind::UnexpectedEof,
+                                "trailer section truncated",
+                            ));
+                        }
+                        if line == "\r\n" || line == "\n" {
                             break;
                         }
                         line.clear();
